@@ -22,6 +22,7 @@ const linterPkg = core.ModPath + "/linter"
 func runC12(c *core.Ctx) {
 	c.Explanation = "Typestate of the linter's ignore sets, decided on SSA: (funnel) Linter.Errors is stored only in (*Linter).Error and the *LintError append is dominated by the false edge of ignore.IsEnable(le.Rule) on the same diagnostic; (pairing) every SetupStatement/SetupBlockStatement call is followed, with no intervening call that can lint, by a defer of the matching Teardown on the same node's meta, and sits in no loop of its function (a defer in a loop would postpone teardown to the end of the block — the leak the property fears); (symmetry) every (set, directive, comment list) a Setup variant fills is cleared by its Teardown variant under the same directive constant, falco-ignore-start/-end are handled in both variants, directive constants map to their own set; (filter) IsEnable reads `.all` and `.rules[rule]` of all three sets with the rule parameter, ignoreRules/unignoreRules store/delete per listed rule and reset on an empty list. Necessary for: a directive's effect ends with its statement/block and is limited to the named rules."
 	c.NotCovered = []string{"the text parsing of the directive (parseIgnoreComment)", "which comments the parser attaches to which statement"}
+	checkIgnoreCover(c, "ignore.cover")
 	prog := c.Prog
 	all := prog.ModuleFuncs()
 	lfuncs := prog.ModuleFuncs("linter")
@@ -484,4 +485,59 @@ func dominatingOrSelfStringConst(bo *ssa.BinOp) string {
 		}
 	}
 	return ""
+}
+
+// checkIgnoreCover: a statement taken from a statement list is linted through lintStatement, the only place that
+// brackets the statement with the ignore setup/teardown; linting it directly bypasses its ignore comments.
+func checkIgnoreCover(c *core.Ctx, rule string) {
+	prog := c.Prog
+	lint := prog.SSAFunc("linter", "Linter.lint")
+	if lint == nil {
+		c.MissingAnchor(rule, "linter.(*Linter).lint")
+		return
+	}
+	n := 0
+	for _, fn := range prog.ModuleFuncs("linter") {
+		for _, b := range fn.Blocks {
+			for _, in := range b.Instrs {
+				call, ok := in.(*ssa.Call)
+				if !ok || call.Common().StaticCallee() != lint {
+					continue
+				}
+				ci, ok := call.Common().Args[1].(*ssa.ChangeInterface)
+				if !ok || core.NamedTypeName(ci.X.Type()) != "Statement" {
+					continue
+				}
+				n++
+				top := fn
+				for top.Parent() != nil {
+					top = top.Parent()
+				}
+				key := core.FnName(fn) + "|lint(Statement)"
+				// accepted idioms: lintStatement itself, or a function that brackets the call the same way
+				brackets := false
+				var setup, teardown bool
+				for _, bb := range fn.Blocks {
+					for _, i2 := range bb.Instrs {
+						if cal := core.StaticCallee(i2); cal != nil {
+							if _, isDefer := i2.(*ssa.Defer); isDefer && cal.Name() == "TeardownStatement" {
+								teardown = true
+							} else if cal.Name() == "SetupStatement" {
+								setup = true
+							}
+						}
+					}
+				}
+				brackets = setup && teardown
+				if top.Name() == "lintStatement" || brackets {
+					c.Discharge(rule, key, in.Pos(), "bracketed by SetupStatement / deferred TeardownStatement")
+				} else {
+					c.Report(rule, key, in.Pos(), core.FnName(fn)+" lints a statement of a statement list directly instead of through lintStatement: falco-ignore comments on those statements have no effect (their diagnostics are counted although ignored)")
+				}
+			}
+		}
+	}
+	if n == 0 {
+		c.MissingAnchor(rule, "no call lints an ast.Statement")
+	}
 }
